@@ -101,7 +101,9 @@ CHECKS = {
    text="Deductive: the loop of _filter_segments (loop contract with a ghost accumulator) keeps a vertex exactly when the chord length accumulated since the last kept vertex "
         "exceeds 0.9·resolution — kept ⇒ 0.9·res < s ≤ 0.9·res + dᵢ, dropped ⇒ s ≤ 0.9·res — examines distances[:-1] only and never drops the last sample; parametric() takes "
         "n = max(2, ⌊10·length/resolution⌋) samples; arc() hands parametric() the exact constant-speed length hypot(radius·sweep, height); set_length_units rescales the "
-        "resolution to the same length in pixels. NOT decided deductively: the chord-vs-arc 'about' constants for actual segment lengths and 'halving the resolution never "
+        "resolution to the same length in pixels; arcs/circles are constant speed — |f(θ1) − f(θ2)| <= |θ1 − θ2|·length (chord <= arc, Lean lemma chord_le_arc) — and the "
+        "arithmetic of these three facts gives the UPPER bound of the statement: for a path at least one resolution long no emitted segment exceeds 1.0112·resolution. "
+        "NOT decided deductively: the LOWER bound (interior segments at least about 0.9·resolution, which needs a curvature argument) and 'halving the resolution never "
         "yields fewer segments' — bounded end-to-end check only, hence category 'other'.",
    note="numpy array semantics (diff, norm, boolean mask, vstack) assumed; bounded stand-in: seeded random constant-speed shapes on the real builder, segment lengths within "
         "[0.85, 1.05]·resolution, halving check for all 8 shapes."),
